@@ -314,7 +314,7 @@ def run(ctx):
 
     chain_kinds = [k for k in kinds if k in (
         "BinOp", "UnOp", "Convert", "MultiConvert", "ChangeType", "ChangeInterface", "SliceToArrayPointer", "MakeInterface",
-        "TypeAssert", "TypeAssertOk", "Field", "Index", "LookupString", "Slice", "Phi", "Extract", "Builtin:len",
+        "TypeAssert", "TypeAssertOk", "Field", "Index", "LookupString", "LookupMap", "LookupMapOk", "Slice", "Phi", "Extract", "Builtin:len",
         "Builtin:append", "Builtin:min", "Builtin:max", "Builtin:real", "Builtin:imag", "Builtin:complex", "InvokeError")]
     big = sorted(stats, key=lambda s: -s["required"])[:4]
     for s in big:
